@@ -68,6 +68,8 @@ def run(model, rep, tier):
     r5_seed_reported(ctx, rep)
     r7_mode_independent(ctx, rep)
     r8_given_seed_is_used(ctx, rep)
+    from . import robust
+    robust.asserts_have_no_effects(ctx, rep, 'C11.R20', 'C11')
     rep.units['cfg'] = ctx.cfg_stats
 
 
